@@ -53,12 +53,16 @@ def jobs(prop, tier, seed):
         if interesting:
             for fs in flagsets(tier):
                 out.append(dict(harness="C08", variant="passthrough", pool="ser", pid=pid, opts={"flags": fs}, bounds=b, budget_s=bs))
+            if any(s.k in ("tuple", "vtuple") for s in walk(spec)):
+                # check_type + pass-through of tuples (TupleCheckOnlyMethod / CheckedTupleMethod)
+                for fs in ({"tuple": True}, {"collections": True}):
+                    out.append(dict(harness="C08", variant="passthrough", pool="ser", pid=pid, opts={"flags": fs, "check_type": True}, bounds=b, budget_s=bs))
     return out
 
 
 def complete(default, x):
     """what json.dumps(default=serialization_default()) would see"""
-    if x is None or type(x) in (bool, int, float, str):
+    if x is None or isinstance(x, (bool, int, float, str)):
         return x
     if type(x) is list or type(x) is tuple:
         return [complete(default, v) for v in x]
@@ -235,7 +239,8 @@ class SerPair(Base):
                 pass
         else:
             self.pt = PassThroughOptions(**job["opts"]["flags"])
-            self.other = serialization_method(self.prog.tp, pass_through=self.pt)
+            ct = {"check_type": True} if job["opts"].get("check_type") else {}
+            self.other = serialization_method(self.prog.tp, pass_through=self.pt, **ct)
             self.default = serialization_default()
         self.bounds = bounds_of(job)
         self.functions = sorted(
